@@ -18,9 +18,12 @@ type legacyHandler struct {
 
 	rwMutex
 	prevResourceResponse bool
-	outstandingPacks     *deque.Deque[*Info]
-	pendingPack          *Info
-	appliedPack          *Info
+	// whether the client has accepted or declined a pack at all yet;
+	// prevResourceResponse is only meaningful once it has
+	hasPrevResourceResponse bool
+	outstandingPacks        *deque.Deque[*Info]
+	pendingPack             *Info
+	appliedPack             *Info
 }
 
 func newLegacyHandler(player Player, eventMgr event.Manager) *legacyHandler {
@@ -91,7 +94,7 @@ func (h *legacyHandler) tickResourcePackQueue() error {
 	queued, ok := h.outstandingPacks.Front()
 	if ok {
 		// Check if the player declined a resource pack once already
-		if !h.prevResourceResponse {
+		if h.hasPrevResourceResponse && !h.prevResourceResponse {
 			// If that happened we can flush the queue right away.
 			// Unless its 1.17+ and forced it will come back denied anyway
 			for h.outstandingPacks.Len() > 0 {
@@ -165,9 +168,11 @@ func (h *legacyHandler) onResourcePackResponseLocked(
 	switch bundle.Status {
 	case AcceptedResponseStatus:
 		h.prevResourceResponse = true
+		h.hasPrevResourceResponse = true
 		h.pendingPack = queued
 	case DeclinedResponseStatus:
 		h.prevResourceResponse = false
+		h.hasPrevResourceResponse = true
 	case SuccessfulResponseStatus:
 		h.appliedPack = queued
 		h.pendingPack = nil
